@@ -46,19 +46,19 @@ def insertOrder (S : Schema) (D : Frame) : List String :=
   concat ++ absent.filter (fun n => !concat.contains n)
 
 /-- dtype and values of a freshly added column: the default (or null) coerced to the declared dtype;
-`none` when that coercion itself fails (the code leaks a `ParserError` there) -/
-def missingColumn (spec : ColSpec) (n : String) (nrows : Nat) : Option Column :=
+`.error` with the uncoercible cells when that coercion fails -/
+def missingColumn (spec : ColSpec) (n : String) (nrows : Nat) : Except (List (Nat × Val)) Column :=
   let fill : Val := spec.default.getD .null
   let raw := List.replicate nrows fill
   match spec.dtype with
-  | none => none       -- `None.try_coerce`: the code leaks an AttributeError
+  | none => .ok ⟨n, (fill.kind?).getD .str, raw⟩      -- no declared dtype: values kept as they are
   | some t =>
-    if valFits t fill then some ⟨n, t, raw⟩ else
+    if valFits t fill then .ok ⟨n, t, raw⟩ else
     -- `astype(bool)` turns a missing value into `False`
-    if t == .bool && fill.isNull then some ⟨n, t, List.replicate nrows (.bool false)⟩ else
+    if t == .bool && fill.isNull then .ok ⟨n, t, List.replicate nrows (.bool false)⟩ else
     match tryCoerce t raw with
-    | .ok vs => some ⟨n, t, vs⟩
-    | .error _ => none
+    | .ok vs => .ok ⟨n, t, vs⟩
+    | .error bad => .error bad
 
 inductive ParseOut
   | ok (D : Frame) (errs : List Err)
@@ -74,13 +74,15 @@ def addMissingStep (S : Schema) (D : Frame) : ParseOut :=
       | none => false) with
   | some n => .ok D [{ reason := .addMissingNoDefault, ctx := .frame, label := some n }]
   | none =>
-    let newCols := absent.map (fun n => match specByName S n with
-      | some sp => missingColumn sp n D.nrows
-      | none => none)
-    if newCols.any Option.isNone then .crash else
-    let all := D.cols ++ newCols.filterMap id
-    let order := insertOrder S D
-    .ok { D with cols := order.filterMap (fun n => all.find? (·.name == n)) } []
+    let newCols := absent.filterMap (fun n => (specByName S n).map (fun sp => (n, missingColumn sp n D.nrows)))
+    -- the first default that cannot be coerced is raised as a coercion error; nothing is added
+    match newCols.find? (fun p => match p.2 with | .error _ => true | .ok _ => false) with
+    | some (n, .error _) =>
+      .ok D [{ reason := .datatypeCoercion, ctx := .column, label := some n }]
+    | _ =>
+      let all := D.cols ++ newCols.filterMap (fun p => match p.2 with | .ok c => some c | .error _ => none)
+      let order := insertOrder S D
+      .ok { D with cols := order.filterMap (fun n => all.find? (·.name == n)) } []
 
 /-- `strict='filter'`: drop the columns the schema does not declare -/
 def strictFilterStep (S : Schema) (D : Frame) : Frame :=
